@@ -431,3 +431,46 @@ Definition check_hcase (c : hcase) : bool * bool :=
     | Some s => option_eqb text_eqb (hc_phase c) (Some (sec_name s))
     | None => match hc_phase c with None => true | Some _ => false end
     end ).
+
+(** * Report case: the chain of "FILE, line N" entries (each with the source text printed below it) of the
+      report that `exactly CASE` printed, for an error / failure located in a file at inclusion depth >= 1;
+      CASE and the printed files are relative to the current directory of the run. *)
+Fixpoint join_path (p : path) : text :=
+  match p with [] => [] | [c] => c | c :: r => c ++ 47 :: join_path r end.
+
+Record rcase := RCase {
+  rc_files : list (path * list text);            (* normalised path relative to the cwd -> lines of the file *)
+  rc_links : list (path * N);                    (* the inclusion chain as written: (path in the directive / CASE, line) *)
+  rc_obs : list (path * N * list text) }.        (* printed entries: (path, line number, source lines printed) *)
+
+Definition entry_true (files : list (path * list text)) (e : path * N * list text) : bool :=
+  match e with
+  | (p, n, src) =>
+      match find (fun f => lines_eqb (fst f) (norm_path p)) files, src with
+      | Some f, _ :: _ => option_eqb lines_eqb (file_lines (snd f) n (length src)) (Some src)
+      | _, _ => false
+      end
+  end.
+
+(** entry i (not the last) shows the directive `including P` where P is the path of link i+1 as written *)
+Fixpoint directives_ok (obs : list (path * N * list text)) (links : list (path * N)) : bool :=
+  match obs, links with
+  | (_, _, src) :: ((_ :: _) as obs'), _ :: (((p, _) :: _) as links') =>
+      match src with
+      | [l] => match split_ws l with
+               | [kw; tok] => text_eqb kw including_token && text_eqb tok (join_path p)
+               | _ => false
+               end
+      | _ => false
+      end && directives_ok obs' links'
+  | _, _ => true
+  end.
+
+Definition check_rcase (c : rcase) : bool * bool :=
+  ( (* the model of the printed chain gives the printed paths and line numbers *)
+    list_eqb (fun a b => lines_eqb (fst a) (fst b) && (snd a =? snd b))
+             (printed_chain (rc_links c)) (map fst (rc_obs c)),
+    (* every printed entry is true: the file exists (relative to the cwd), the line has that number and text;
+       one entry per file of the chain; the entries before the last are the inclusion directives *)
+    Nat.eqb (length (rc_obs c)) (length (rc_links c)) && forallb (entry_true (rc_files c)) (rc_obs c) &&
+    directives_ok (rc_obs c) (rc_links c) ).
